@@ -19,7 +19,7 @@ import (
 func init() {
 	mon.Register(&mon.Prop{
 		ID: "C14", Level: "exploration",
-		Rule: "annotated sequences with every length 1..300 (each residue class modulo the 70-column FASTA width several times) and random lengths to 5000, 0..30 features with 1..6 attributes, features at the extreme coordinates 1 and L, field text free of tab, newline, ';', '=' and seqids free of white space; write direction: gff.Build -> gff.Parse, gff.Build -> the harness's own GFF3 reader, Write/Read through a temp file; parse direction: GFF3 laid out by the harness's own writer (attribute order shuffled, FASTA wrap width 1..200, with/without ###, with/without final newline) -> gff.Parse; non-trivial = at least one feature; distinct by hash of the GFF text",
+		Rule:        "annotated sequences with every length 1..300 (each residue class modulo the 70-column FASTA width several times) and random lengths to 5000, 0..30 features with 1..6 attributes, features at the extreme coordinates 1 and L, field text free of tab, newline, ';', '=' and seqids free of white space; write direction: gff.Build -> gff.Parse, gff.Build -> the harness's own GFF3 reader, Write/Read through a temp file; parse direction: GFF3 laid out by the harness's own writer (attribute order shuffled, FASTA wrap width 1..200, with/without ###, with/without final newline) -> gff.Parse; non-trivial = at least one feature; distinct by hash of the GFF text",
 		Assumptions: []string{"oracle: the input record; coordinates checked against the harness's own slicing of the sequence (file start..end, 1-based inclusive)"},
 		Shards:      tierShards(8, 16), WatchdogSec: tierSecs(600, 3600),
 		MinStats: func(string) map[string]int64 {
@@ -31,8 +31,8 @@ func init() {
 
 type gffFeature struct {
 	Seqid, Source, Type, Score, Strand, Phase string
-	Start, End                               int // 1-based inclusive (file convention)
-	Attrs                                    map[string]string
+	Start, End                                int // 1-based inclusive (file convention)
+	Attrs                                     map[string]string
 }
 
 type gffRecord struct {
